@@ -100,6 +100,7 @@ unsigned int g_ci, g_ni, g_rd_calls, g_wr_calls, g_al_calls, g_rd_blk, g_wr_blk,
 #define GHOSTBLK(b) ((b) == gB0 || (b) == gB1 || (b) == gB2)
 struct blk1k { unsigned int w[C09_APB]; };
 struct blk2k { unsigned int w[2 * C09_APB]; };
+struct blk12 { unsigned int w[12]; };
 #define CHOICE() (IN.choice[(g_ci++) & 7])
 
 /* ---- ghost disk */
@@ -112,7 +113,8 @@ static errcode_t st_read_blk(io_channel channel, unsigned long block, int count,
 		return EXT2_ET_SHORT_READ;
 	/* environment: no multiply-referenced / cyclic indirect blocks — no slot refers to a block of the ghost path except
 	 * the ghost slots themselves (set below) */
-	ASSUME(!GHOSTBLK(nd.w[IN.nr & 255]));	/* stated for the one slot this unit's call consults (weaker than "every slot") */
+	/* stated for the one slot this unit's call consults (weaker than "every slot"): it holds an arbitrary non-ghost value */
+	nd.w[IN.nr & 255] = IN.goal;
 	*(struct blk1k *)data = nd;
 	if (block == gB0) w[gK0] = gV0;
 	else if (block == gB1) w[gK1] = gV1;
@@ -141,6 +143,8 @@ errcode_t ext2fs_alloc_block(ext2_filsys fs, blk_t goal, char *block_buf, blk_t 
 
 #define GHOSTS gV0, gV1, gV2, g_ci, g_ni, g_rd_calls, g_wr_calls, g_al_calls, g_rd_blk, g_wr_blk, g_al_goal
 #define IMPL(a, b) (!(a) || (b))
+/* nothing is allocated without BMAP_ALLOC */
+#define NOALLOC ENSURES((flags & BMAP_ALLOC) || (*blocks_alloc == OLD(*blocks_alloc) && g_al_calls == OLD(g_al_calls)));
 /* the triple j the call (ind, nr) addresses, if any */
 #define ON0(ind, nr) ((ind) == gB0 && (nr) == gK0)
 #define ON1(ind, nr) ((ind) == gB1 && (nr) == gK1)
@@ -148,10 +152,10 @@ errcode_t ext2fs_alloc_block(ext2_filsys fs, blk_t goal, char *block_buf, blk_t 
 
 /* what one slot access does to "its" triple: V = current value, V_ = value on entry */
 #define SLOT_POST(on, sameblk, V, V_, flags, ret_blk, ret_blk_, balloc, balloc_) \
-	(IMPL(on, ((flags) & BMAP_SET) ? (V) == (ret_blk_) : \
-		  (V_) != 0 ? ((V) == (V_) && *(ret_blk) == (V_) && (balloc) == (balloc_)) : \
+	(IMPL(on, ((flags) & BMAP_SET) ? ((V) == (ret_blk_) && g_al_calls == OLD(g_al_calls)) : \
+		  (V_) != 0 ? ((V) == (V_) && *(ret_blk) == (V_) && (balloc) == (balloc_) && g_al_calls == OLD(g_al_calls)) : \
 		  ((flags) & BMAP_ALLOC) ? ((V) != 0 && *(ret_blk) == (V) && (balloc) == (balloc_) + 1 && g_al_calls == OLD(g_al_calls) + 1) : \
-		  ((V) == 0 && *(ret_blk) == 0 && (balloc) == (balloc_))) && \
+		  ((V) == 0 && *(ret_blk) == 0 && (balloc) == (balloc_) && g_al_calls == OLD(g_al_calls))) && \
 	 /* another slot of the same block: untouched */ \
 	 IMPL(!(on) && (sameblk), (V) == (V_)))
 
@@ -168,11 +172,15 @@ static errcode_t block_ind_bmap(ext2_filsys fs, int flags, blk_t ind, char *bloc
 		SLOT_POST(ON1(ind, nr), ind == gB1, gV1, OLD(gV1), flags, ret_blk, OLD(*ret_blk), *blocks_alloc, OLD(*blocks_alloc)) &&
 		SLOT_POST(ON2(ind, nr), ind == gB2, gV2, OLD(gV2), flags, ret_blk, OLD(*ret_blk), *blocks_alloc, OLD(*blocks_alloc))))
 	/* environment (no multiply-referenced indirect blocks): a slot that is not a ghost slot does not hold a ghost block */
-	ENSURES(RET != 0 || (flags & BMAP_SET) || ON0(ind, nr) || ON1(ind, nr) || ON2(ind, nr) || !GHOSTBLK(*ret_blk))
-	/* blocks other than ind are never written; on failure a slot is unchanged or holds the block just allocated */
+	ENSURES(RET != 0 || (flags & BMAP_SET) || !GHOSTBLK(*ret_blk) ||
+		(ON1(ind, nr) && OLD(gV1) == gB0 && *ret_blk == gB0) || (ON2(ind, nr) && OLD(gV2) == gB1 && *ret_blk == gB1))
+	/* failure: the disk is unchanged */
+	ENSURES(RET == 0 || (gV0 == OLD(gV0) && gV1 == OLD(gV1) && gV2 == OLD(gV2)))
+	/* blocks other than ind are never written */
 	ENSURES((ind == gB0 || gV0 == OLD(gV0)) && (ind == gB1 || gV1 == OLD(gV1)) && (ind == gB2 || gV2 == OLD(gV2)))
 	ENSURES(g_wr_calls == OLD(g_wr_calls) || g_wr_blk == ind)
-	ENSURES(*blocks_alloc >= OLD(*blocks_alloc) && *blocks_alloc <= OLD(*blocks_alloc) + 1);
+	ENSURES(*blocks_alloc >= OLD(*blocks_alloc) && *blocks_alloc <= OLD(*blocks_alloc) + 1)
+	NOALLOC
 
 /* path through two levels: dind block B1 slot K1 -> ind block B0 slot K0 */
 static errcode_t block_dind_bmap(ext2_filsys fs, int flags, blk_t dind, char *block_buf, int *blocks_alloc, blk_t nr, blk_t *ret_blk)
@@ -180,21 +188,35 @@ static errcode_t block_dind_bmap(ext2_filsys fs, int flags, blk_t dind, char *bl
 	REQUIRES(gB0 != gB1 && gB0 != gB2 && gB1 != gB2 && gB0 != 0 && gB1 != 0 && gB2 != 0)
 	REQUIRES(!GHOSTBLK(gV0) && (gV1 == gB0 || !GHOSTBLK(gV1)) && (gV2 == gB1 || !GHOSTBLK(gV2)))
 	ASSIGNS(GHOSTS; *ret_blk; *blocks_alloc; *(struct blk2k *)block_buf)
-	/* logical index nr = K1 * 256 + K0 on the ghost path, path complete on entry (slot K1 of B1 points to B0) */
-#define DPATH (dind == gB1 && nr == ((gK1 << C09_ABITS) | gK0) && OLD(gV1) == gB0)
-	ENSURES(RET != 0 || !DPATH || gV1 == OLD(gV1))
-	ENSURES(RET != 0 || !DPATH || !(flags & BMAP_SET) || gV0 == OLD(*ret_blk))
-	ENSURES(RET != 0 || !DPATH || (flags & BMAP_SET) || OLD(gV0) == 0 ||
-		(gV0 == OLD(gV0) && *ret_blk == OLD(gV0) && *blocks_alloc == OLD(*blocks_alloc)))
-	ENSURES(RET != 0 || !DPATH || (flags & BMAP_SET) || OLD(gV0) != 0 || !(flags & BMAP_ALLOC) ||
-		(gV0 != 0 && *ret_blk == gV0 && *blocks_alloc == OLD(*blocks_alloc) + 1 && g_al_calls == OLD(g_al_calls) + 1))
-	ENSURES(RET != 0 || !DPATH || (flags & BMAP_SET) || OLD(gV0) != 0 || (flags & BMAP_ALLOC) ||
-		(gV0 == 0 && *ret_blk == 0 && *blocks_alloc == OLD(*blocks_alloc)))
-	/* same double-indirect block, another first-level slot: the ghost leaf slot is not reached */
-	ENSURES(RET != 0 || !(dind == gB1 && (nr >> C09_ABITS) != gK1 && OLD(gV1) == gB0) || (flags & BMAP_ALLOC) || gV0 == OLD(gV0))
-	/* the intermediate slot is only ever filled (BMAP_ALLOC on a hole), never changed */
-	ENSURES(OLD(gV1) == 0 || gV1 == OLD(gV1))
-	ENSURES(*blocks_alloc >= OLD(*blocks_alloc) && *blocks_alloc <= OLD(*blocks_alloc) + 2);
+	/* the two-level walk, stated for both pairs of adjacent ghost levels: (hi, lo) = (B1/K1, B0/K0) when the function is
+	 * used on a double-indirect block, and (B2/K2, B1/K1) when block_tind_bmap uses it on the triple-indirect block.
+	 * Logical index nr = Khi * 256 + Klo, path complete on entry (slot Khi of Bhi points to Blo). */
+#define DIND_POST(Bhi, Khi, Vhi, Blo, Klo, Vlo) \
+	ENSURES(RET != 0 || !(dind == Bhi && nr == ((Khi << C09_ABITS) | Klo) && OLD(Vhi) == Blo) || Vhi == OLD(Vhi)) \
+	ENSURES(RET != 0 || !(dind == Bhi && nr == ((Khi << C09_ABITS) | Klo) && OLD(Vhi) == Blo) || !(flags & BMAP_SET) || \
+		(Vlo == OLD(*ret_blk) && g_al_calls == OLD(g_al_calls))) \
+	ENSURES(RET != 0 || !(dind == Bhi && nr == ((Khi << C09_ABITS) | Klo) && OLD(Vhi) == Blo) || (flags & BMAP_SET) || OLD(Vlo) == 0 || \
+		(Vlo == OLD(Vlo) && *ret_blk == OLD(Vlo) && *blocks_alloc == OLD(*blocks_alloc) && g_al_calls == OLD(g_al_calls))) \
+	ENSURES(RET != 0 || !(dind == Bhi && nr == ((Khi << C09_ABITS) | Klo) && OLD(Vhi) == Blo) || (flags & BMAP_SET) || OLD(Vlo) != 0 || \
+		!(flags & BMAP_ALLOC) || \
+		(Vlo != 0 && *ret_blk == Vlo && *blocks_alloc == OLD(*blocks_alloc) + 1 && g_al_calls == OLD(g_al_calls) + 1)) \
+	ENSURES(RET != 0 || !(dind == Bhi && nr == ((Khi << C09_ABITS) | Klo) && OLD(Vhi) == Blo) || (flags & BMAP_SET) || OLD(Vlo) != 0 || \
+		(flags & BMAP_ALLOC) || (Vlo == 0 && *ret_blk == 0 && *blocks_alloc == OLD(*blocks_alloc) && g_al_calls == OLD(g_al_calls))) \
+	/* same top block, another first-level slot: the ghost leaf slot is not reached (unless a block is allocated) */ \
+	ENSURES(RET != 0 || !(dind == Bhi && (nr >> C09_ABITS) != Khi && OLD(Vhi) == Blo) || (flags & BMAP_ALLOC) || Vlo == OLD(Vlo)) \
+	/* the intermediate slot is only ever filled (BMAP_ALLOC on a hole), never changed */ \
+	ENSURES(dind != Bhi || OLD(Vhi) == 0 || Vhi == OLD(Vhi))
+	DIND_POST(gB1, gK1, gV1, gB0, gK0, gV0)
+	DIND_POST(gB2, gK2, gV2, gB1, gK1, gV1)
+	/* environment: the result is a ghost block only along the ghost path */
+	ENSURES(RET != 0 || (flags & BMAP_SET) || !GHOSTBLK(*ret_blk) ||
+		(dind == gB2 && nr == ((gK2 << C09_ABITS) | gK1) && OLD(gV2) == gB1 && *ret_blk == gB0))
+	/* used on the upper pair, the lowest ghost block is not touched */
+	ENSURES(!(dind == gB2 && OLD(gV2) == gB1) || gV0 == OLD(gV0))
+	/* failure: whatever was mapped stays mapped */
+	ENSURES(RET == 0 || ((OLD(gV0) == 0 || gV0 == OLD(gV0)) && (OLD(gV1) == 0 || gV1 == OLD(gV1)) && (OLD(gV2) == 0 || gV2 == OLD(gV2))))
+	ENSURES(*blocks_alloc >= OLD(*blocks_alloc) && *blocks_alloc <= OLD(*blocks_alloc) + 2)
+	NOALLOC
 
 static errcode_t block_tind_bmap(ext2_filsys fs, int flags, blk_t tind, char *block_buf, int *blocks_alloc, blk_t nr, blk_t *ret_blk)
 	REQUIRES(fs->blocksize == 1024 && nr < C09_APB * C09_APB * C09_APB && *blocks_alloc >= 0 && *blocks_alloc < 4)
@@ -211,8 +233,53 @@ static errcode_t block_tind_bmap(ext2_filsys fs, int flags, blk_t tind, char *bl
 		(gV0 != 0 && *ret_blk == gV0 && *blocks_alloc == OLD(*blocks_alloc) + 1 && g_al_calls == OLD(g_al_calls) + 1))
 	ENSURES(RET != 0 || !TPATH || (flags & BMAP_SET) || OLD(gV0) != 0 || (flags & BMAP_ALLOC) ||
 		(gV0 == 0 && *ret_blk == 0 && *blocks_alloc == OLD(*blocks_alloc)))
-	ENSURES((OLD(gV2) == 0 || gV2 == OLD(gV2)))
-	ENSURES(*blocks_alloc >= OLD(*blocks_alloc) && *blocks_alloc <= OLD(*blocks_alloc) + 3);
+	ENSURES(tind != gB2 || OLD(gV2) == 0 || gV2 == OLD(gV2))
+	ENSURES(*blocks_alloc >= OLD(*blocks_alloc) && *blocks_alloc <= OLD(*blocks_alloc) + 3)
+	NOALLOC
+
+/* ---- ext2fs_bmap2 on a block-mapped inode: which slot is consulted for logical block n */
+unsigned int g_a3_calls, g_iblk_calls, g_wi_calls, g_zero_calls, g_goal_calls;
+unsigned long long g_a3_goal, g_iblk_n, g_zero_blk;
+errcode_t ext2fs_alloc_block3(ext2_filsys fs, blk64_t goal, char *block_buf, blk64_t *ret, struct blk_alloc_ctx *ctx)
+{
+	g_a3_calls++; g_a3_goal = goal;
+	if (CHOICE())
+		return EXT2_ET_BLOCK_ALLOC_FAIL;
+	*ret = IN.alloc3;
+	return 0;
+}
+blk64_t ext2fs_find_inode_goal(ext2_filsys fs, ext2_ino_t ino, struct ext2_inode *inode, blk64_t lblk) { g_goal_calls++; return IN.goal; }
+errcode_t ext2fs_iblk_add_blocks(ext2_filsys fs, struct ext2_inode *inode, blk64_t num_blocks) { g_iblk_calls++; g_iblk_n = num_blocks; return 0; }
+errcode_t ext2fs_write_inode(ext2_filsys fs, ext2_ino_t ino, struct ext2_inode *inode) { g_wi_calls++; return CHOICE() ? EXT2_ET_SHORT_WRITE : 0; }
+errcode_t ext2fs_zero_blocks2(ext2_filsys fs, blk64_t blk, int num, blk64_t *ret_blk, int *ret_count) { g_zero_calls++; g_zero_blk = blk; return 0; }
+
+/* never reached for a block-mapped inode: the (unprovable) precondition is checked at every call site */
+static errcode_t extent_bmap(ext2_filsys fs, ext2_ino_t ino, struct ext2_inode *inode, ext2_extent_handle_t handle,
+			     char *block_buf, int bmap_flags, blk64_t block, int *ret_flags, int *blocks_alloc, blk64_t *phys_blk)
+	REQUIRES(0)
+	ASSIGNS();
+
+#define GHOSTS2 GHOSTS, g_a3_calls, g_iblk_calls, g_wi_calls, g_zero_calls, g_goal_calls, g_a3_goal, g_iblk_n, g_zero_blk
+/* tree and relative index of logical block n (specs/c09_ind_spec.h) */
+#define TREE(n) ((n) < C09_NDIR ? 0 : (n) - C09_BASE(1) < C09_SIZE(1) ? 1 : (n) - C09_BASE(2) < C09_SIZE(2) ? 2 : 3)
+errcode_t ext2fs_bmap2(ext2_filsys fs, ext2_ino_t ino, struct ext2_inode *inode, char *block_buf, int bmap_flags, blk64_t block,
+		       int *ret_flags, blk64_t *phys_blk)
+	REQUIRES(fs->blocksize == 1024 && inode != 0 && !(inode->i_flags & (EXT4_EXTENTS_FL | EXT4_INLINE_DATA_FL)))
+	REQUIRES(gB0 != gB1 && gB0 != gB2 && gB1 != gB2 && gB0 != 0 && gB1 != 0 && gB2 != 0)
+	REQUIRES(!GHOSTBLK(gV0) && (gV1 == gB0 || !GHOSTBLK(gV1)) && (gV2 == gB1 || !GHOSTBLK(gV2)))
+	REQUIRES(g_a3_calls == 0 && g_iblk_calls == 0 && g_wi_calls == 0 && g_zero_calls == 0)
+	ASSIGNS(GHOSTS2; *phys_blk; ret_flags != 0: *ret_flags; *(struct blk12 *)inode->i_block; inode->i_block[12]; inode->i_block[13];
+		inode->i_block[14]; block_buf != 0: *(struct blk2k *)block_buf)
+	/* beyond what the block map can address: refused, nothing changed */
+	ENSURES(block < C09_BASE(3) + C09_SIZE(3) || (RET == EXT2_ET_FILE_TOO_BIG && g_wi_calls == 0 && g_a3_calls == 0))
+	/* direct blocks: slot n of i_block */
+	ENSURES(RET != 0 || block >= C09_NDIR || ((bmap_flags & BMAP_SET) ? inode->i_block[block < C09_NDIR ? block : 0] == (blk_t)OLD(*phys_blk) :
+		*phys_blk == inode->i_block[block < C09_NDIR ? block : 0]))
+	/* i_blocks is charged with exactly the blocks allocated, and the inode is written iff something changed */
+	ENSURES(RET != 0 || !(((bmap_flags & BMAP_SET) && block < C09_NDIR) || g_a3_calls > 0) || (g_wi_calls == 1 && g_iblk_calls == 1))
+	ENSURES(RET != 0 || (bmap_flags & (BMAP_SET | BMAP_ALLOC)) || (g_wi_calls == 0 && g_a3_calls == 0))
+	ENSURES(g_iblk_calls <= 1 && g_wi_calls <= 1 && (g_iblk_calls == 0 || g_iblk_n <= 4));
+
 
 #include "lib/ext2fs/bmap.c"
 
@@ -235,6 +302,7 @@ static char *build(void)
 	ASSUME(gK0 < C09_APB && gK1 < C09_APB && gK2 < C09_APB);
 	gV0 = IN.V[0]; gV1 = IN.V[1]; gV2 = IN.V[2];
 	g_ci = g_ni = g_rd_calls = g_wr_calls = g_al_calls = 0;
+	ASSUME(!GHOSTBLK(IN.goal));
 	ASSUME(IN.newblk[0] != 0 && IN.newblk[1] != 0 && !GHOSTBLK(IN.newblk[0]) && !GHOSTBLK(IN.newblk[1]));	/* the allocator returns free blocks */
 	/* the ghost slots form a path or lead out of the ghost blocks: no cycles, no level skipping */
 	ASSUME(!GHOSTBLK(gV0) && (gV1 == gB0 || !GHOSTBLK(gV1)) && (gV2 == gB1 || !GHOSTBLK(gV2)));
@@ -301,4 +369,66 @@ void h_tind(void)
 	REACH("end");
 }
 
-void h_bmap2(void) { REACH("end"); }
+static struct ext2_inode INODE;
+static blk64_t PHYS;
+
+void h_bmap2(void)
+{
+	char *buf = build();
+	memset(&INODE, 0, sizeof(INODE));
+	memcpy(INODE.i_block, IN.iblock, sizeof(INODE.i_block));
+	g_a3_calls = g_iblk_calls = g_wi_calls = g_zero_calls = g_goal_calls = 0;
+	ASSUME(IN.alloc3 != 0 && IN.alloc3 < (1ULL << 32) && !GHOSTBLK((unsigned int)IN.alloc3));
+	unsigned long long n = IN.block;
+	int flags = IN.flags & (BMAP_ALLOC | BMAP_SET | BMAP_ZERO);
+	ASSUME((flags & (BMAP_ALLOC | BMAP_SET)) != (BMAP_ALLOC | BMAP_SET));	/* callers use one or the other */
+	ASSUME(n < C09_BASE(3) + C09_SIZE(3));
+	int T = TREE(n);
+	unsigned long long m = n - C09_BASE(T);
+	/* the ghost path is the path of n: slot indices as the ext2 map defines them, tree root on the path */
+	if (T >= 1) ASSUME(gK0 == (m & 255));
+	if (T >= 2) ASSUME(gK1 == ((m >> 8) & 255) && gV1 == gB0);
+	if (T >= 3) ASSUME(gK2 == ((m >> 16) & 255) && gV2 == gB1);
+	unsigned int root = T == 0 ? 0 : T == 1 ? gB0 : T == 2 ? gB1 : gB2;
+	if (T >= 1 && !IN.toobig) INODE.i_block[11 + T] = root;			/* IN.toobig reused: 1 = leave the root arbitrary */
+	int onpath = T >= 1 && INODE.i_block[11 + T] == root;
+	/* no multiply-referenced indirect blocks: the other roots and the direct slots are not ghost blocks */
+	if (T != 1) ASSUME(!GHOSTBLK(INODE.i_block[12]));
+	if (T != 2) ASSUME(!GHOSTBLK(INODE.i_block[13]));
+	if (T != 3) ASSUME(!GHOSTBLK(INODE.i_block[14]));
+	if (T >= 1 && !onpath) ASSUME(!GHOSTBLK(INODE.i_block[11 + T]));
+	unsigned int v0 = gV0, ib0 = T == 0 ? INODE.i_block[n] : 0, root0 = T >= 1 ? INODE.i_block[11 + T] : 0;
+	PHYS = IN.retblk;
+	int rf = 77;
+
+	errcode_t r = ext2fs_bmap2(&FS, 12, &INODE, IN.have_buf ? buf : 0, flags, n, IN.goal & 1 ? &rf : 0, &PHYS);
+
+	if (r == 0) {
+		if (T == 0) {
+			if (flags & BMAP_SET) { CHECK(INODE.i_block[n] == IN.retblk, "direct: BMAP_SET stores into i_block[n]"); REACH("direct set"); }
+			else if (ib0) { CHECK(PHYS == ib0 && INODE.i_block[n] == ib0, "direct: lookup returns i_block[n]"); REACH("direct mapped"); }
+			else if (flags & BMAP_ALLOC) { CHECK(PHYS == IN.alloc3 && INODE.i_block[n] == IN.alloc3 && g_iblk_n == 1, "direct: new block stored in i_block[n], i_blocks charged"); REACH("direct alloc"); }
+			else { CHECK(PHYS == 0, "direct hole"); REACH("direct hole"); }
+		} else if (onpath) {
+			/* the leaf slot of n is slot K0 of the block the ghost path reaches */
+			if (flags & BMAP_SET) { CHECK(gV0 == IN.retblk, "BMAP_SET stores into the slot the ext2 map defines for n"); REACH("tree set"); }
+			else if (v0) { CHECK(PHYS == v0 && gV0 == v0 && g_wi_calls == 0, "lookup returns the slot the ext2 map defines for n"); REACH("tree mapped"); }
+			else if (flags & BMAP_ALLOC) { CHECK(PHYS == gV0 && gV0 != 0 && g_iblk_n == 1 && g_wi_calls == 1, "BMAP_ALLOC stores the new block in the slot of n, i_blocks charged, inode written"); REACH("tree alloc"); }
+			else { CHECK(PHYS == 0 && gV0 == 0, "hole"); REACH("tree hole"); }
+			if (T == 1) REACH("indirect tree");
+			if (T == 2) REACH("double indirect tree");
+			if (T == 3) REACH("triple indirect tree");
+		} else if (root0 == 0) {
+			if (flags & BMAP_ALLOC) {
+				CHECK(INODE.i_block[11 + T] == IN.alloc3 && g_iblk_n >= 1 && g_wi_calls == 1, "missing tree root allocated, stored in i_block, charged");
+				REACH("root allocated");
+			} else { CHECK(PHYS == 0 && INODE.i_block[11 + T] == 0 && g_wi_calls == 0, "no tree: hole"); REACH("no root: hole"); }
+		}
+		CHECK(gV1 == IN.V[1] || IN.V[1] == 0 || T < 2 || !onpath, "intermediate slots of the path unchanged");
+		if (flags & BMAP_ZERO) CHECK(PHYS == 0 || (g_zero_calls == 1 && g_zero_blk == PHYS), "BMAP_ZERO zeroes the mapped block");
+	} else {
+		if (T >= 1 && root0 == 0 && (flags & BMAP_SET)) { CHECK(r == EXT2_ET_SET_BMAP_NO_IND || !IN.have_buf, "BMAP_SET without a tree refused (or no memory for the scratch buffer)"); REACH("set refused"); }
+		REACH("error");
+	}
+	REACH("end");
+}
